@@ -58,7 +58,7 @@ Print Assumptions c07_partial.
 (* the same after any history (renegotiation), where the distinctness of the
    transceiver mids is the invariant of C06 *)
 Theorem c07_partial_history : forall ops d,
-  remote_ok ops -> numbering_ok_all ops ->
+  remote_ok ops -> nowrap_all ops ->
   sig (run ops) = Stable ->
   rdesc_ok d -> offer_usable d -> kinds_compatible (trs (run ops)) d ->
   codecs_ok (fst (set_remote (run ops) TOffer d)) ->
@@ -67,15 +67,54 @@ Theorem c07_partial_history : forall ops d,
 Proof. exact c07_history_lemma. Qed.
 Print Assumptions c07_partial_history.
 
+(* the port-0 clause, and exactly which sections are dropped.  For every stable
+   state with pairwise distinct transceiver mids and every offer with distinct
+   non-empty mids (its sections may be unusable: unknown media type, no direction
+   attribute; its BUNDLE group may omit sections, be absent or not be a BUNDLE
+   group), whose audio/video mids are not carried by a transceiver of the other
+   kind, a codec being known for both kinds: SetRemoteDescription and
+   CreateAnswer succeed; the answer has one section per USABLE offered section, in
+   order, with the offered media type and mid; such a section is rejected in place
+   (port 0) exactly when its mid is outside the remote BUNDLE group, and the
+   answer's BUNDLE group lists the others.  The unusable sections are the ones
+   that are dropped (refuted above); sections of a kind without codec are rejected
+   in place but lose their mid (refuted above, excluded here by codecs_ok). *)
+Theorem c07_port0_partial : forall s d,
+  sig s = Stable -> NoDup (set_mids (trs s)) ->
+  rdesc_ok d -> (forall r, In r (r_secs d) -> r_mid r <> "") -> kinds_compatible (trs s) d ->
+  codecs_ok (fst (set_remote s TOffer d)) ->
+  snd (set_remote s TOffer d) = Ok tt /\
+  exists a, snd (create_answer (fst (set_remote s TOffer d))) = Ok a /\
+    map kind_mid_l (l_secs a) = map kind_mid_r (filter usable (r_secs d)) /\
+    map l_port0 (l_secs a) = map (port0_r d) (filter usable (r_secs d)) /\
+    l_bundle a = filter (in_remote_group d) (map r_mid (filter usable (r_secs d))).
+Proof. exact c07_shape_lemma. Qed.
+Print Assumptions c07_port0_partial.
+
+(* the same after any history *)
+Theorem c07_port0_partial_history : forall ops d,
+  remote_ok ops -> nowrap_all ops ->
+  sig (run ops) = Stable ->
+  rdesc_ok d -> (forall r, In r (r_secs d) -> r_mid r <> "") -> kinds_compatible (trs (run ops)) d ->
+  codecs_ok (fst (set_remote (run ops) TOffer d)) ->
+  snd (set_remote (run ops) TOffer d) = Ok tt /\
+  exists a, snd (create_answer (fst (set_remote (run ops) TOffer d))) = Ok a /\
+    map kind_mid_l (l_secs a) = map kind_mid_r (filter usable (r_secs d)) /\
+    map l_port0 (l_secs a) = map (port0_r d) (filter usable (r_secs d)) /\
+    l_bundle a = filter (in_remote_group d) (map r_mid (filter usable (r_secs d))).
+Proof. exact c07_shape_history_lemma. Qed.
+Print Assumptions c07_port0_partial_history.
+
 (* the matching loop of SetRemoteDescription binds every usable audio/video
-   section to a transceiver with its mid and kind (findByMid cannot fail later) *)
+   section to a transceiver with its mid and kind (findByMid cannot fail later)
+   and passes over the unusable ones *)
 Theorem c07_offer_binds_transceivers : forall secs l,
   NoDup (map r_mid secs) ->
-  (forall r, In r secs -> r_mid r <> "" /\ usable r = true) ->
+  (forall r, In r secs -> r_mid r <> "") ->
   (forall t a r k, In (t, a) l -> In r secs -> t_mid t = r_mid r ->
                    media_kind (r_kind r) = Some k -> t_kind t = k) ->
   exists l', srd_loop secs l = (l', None) /\
-    (forall r k, In r secs -> media_kind (r_kind r) = Some k -> bound l' (r_mid r) k) /\
+    (forall r k, In r secs -> usable r = true -> media_kind (r_kind r) = Some k -> bound l' (r_mid r) k) /\
     (forall m k, m <> "" -> bound l m k -> bound l' m k).
 Proof. exact srd_loop_ok. Qed.
 Print Assumptions c07_offer_binds_transceivers.
@@ -85,3 +124,15 @@ Example c07_partial_nontrivial :
   kinds_compatible (trs st_two) off_four /\ codecs_ok (fst (set_remote st_two TOffer off_four)) /\
   answer_of st_two off_four = Some (map kind_mid_r (r_secs off_four)).
 Proof. exact ex_c07_premises. Qed.
+
+(* premises of c07_port0_partial on an offer of six sections, two of them unusable
+   (m=text; video without direction), one usable one outside the BUNDLE group: the
+   answer is [v d a w] with w at port 0 *)
+Example c07_port0_nontrivial :
+  sig st_two = Stable /\ NoDup (set_mids (trs st_two)) /\ rdesc_ok off_mixed /\
+  (forall r, In r (r_secs off_mixed) -> r_mid r <> "") /\
+  kinds_compatible (trs st_two) off_mixed /\ codecs_ok (fst (set_remote st_two TOffer off_mixed)) /\
+  map kind_mid_r (filter usable (r_secs off_mixed)) =
+    [(KVideo, Some "v"); (KApplication, Some "d"); (KAudio, Some "a"); (KVideo, Some "w")] /\
+  map (port0_r off_mixed) (filter usable (r_secs off_mixed)) = [false; false; false; true].
+Proof. exact ex_c07_shape. Qed.
